@@ -1,5 +1,7 @@
 import Pyxv.Model.Json
 import Pyxv.Model.Validator
+import Pyxv.Model.ExtChoices
+import Pyxv.Model.OpsJVal
 /-! Driver operations for the C18 model (validator state machine, error cleaner, args logic). -/
 namespace Pyxv.Validator
 open Lean Pyxv
@@ -77,6 +79,9 @@ def opsValidator (op : String) (j : Json) : Option (Except String Json) :=
   | "c18.args" => some do
       let a := validatorArgsLogic (argsOfJson j)
       pure (Json.mkObj [("skip_validate", a.skipValidate), ("odk", a.odkValidate), ("enketo", a.enketoValidate)])
+  | "c18.hasext" => some do
+      let v ← JV.ofWire (← j.getObjVal? "v")
+      pure (Json.bool (hasExt v))
   | "c18.xmlpath" => some do
       pure (jstr (getXmlName (← getStr j "name")))
   | "c18.run" => some do
